@@ -35,23 +35,30 @@ CONSTANTS Populations,       \* set of subscription tables (sets of [c, f, q]) a
           MaxUp,             \* bound on PUBLISH packets from clients (model checking only)
           ReturnOnLowQoS,    \* TRUE: sendMsgToClient as pinned (`return` at a subscriber with lower QoS); FALSE: `continue`
           PickMaxQoS,        \* FALSE: findSubscribers reports any one of a client's matching QoS (pinned); TRUE: the maximum
-          Bystanders         \* ids of clients that hold no subscription and connect / disconnect at any time
+          Bystanders,        \* ids of clients that hold no subscription and connect / disconnect at any time
+          AckViaQueue,       \* TRUE: the PUBACK of a client's PUBLISH travels through that client's outbound queue like every other
+                             \* packet the broker sends it (writePacket: the connection's read loop blocks while the queue is full -
+                             \* a client that has stopped reading); FALSE: coarse grain - PUBLISH and PUBACK are one step (generator,
+                             \* trace validation: the harness has read the PUBACK, or seen that there is none, before it goes on)
+          DropAckOnFull      \* FALSE: the code; TRUE: the read loop gives up on a full queue after a while and the PUBACK is lost
+                             \* (lead generation: must be refuted)
 
 VARIABLES msgs,      \* sequence of published messages [t, q]; the index is the message id
-          inq,       \* [Clients -> Seq(message id)]  outbound queue (Client.writeCh)
+          inq,       \* [Clients -> Seq(message id | -k)]  outbound queue (Client.writeCh); -k: the PUBACK of up[k]
           pend,      \* [Clients -> Seq(message id)]  QoS1 messages sent and not yet acknowledged, oldest first
           got,       \* [Clients -> Seq(message id)]  what the client has read from its socket, in order
           ackd,      \* [Clients -> SUBSET message id]  acknowledgements the broker has processed
           resends,   \* number of retransmissions so far
           up,        \* sequence of PUBLISH packets received from clients: [c, pid, q, t]
           piped,     \* indices of `up` handed to the backend (publish) pipeline
-          upack,     \* sequence of PUBACKs sent to publishing clients: [c, pid]
+          upack,     \* sequence of PUBACKs received by publishing clients: [c, pid, k] (k: the PUBLISH, index of `up`, it answers)
+          rl,        \* [Clients -> 0 | k]: k # 0 - the connection's read loop is blocked in writePacket with the PUBACK of up[k]
           infl,      \* [Clients -> [PidsUp -> message]]: client side - the unacknowledged QoS1 message that occupies a packet id (0: free)
           byst,      \* the bystanders connected at the moment
           step       \* observation of the step just taken
 
-dvars == <<vars, msgs, inq, pend, got, ackd, resends, up, piped, upack, infl, byst, step>>
-dview == <<subs, msgs, inq, pend, got, ackd, resends, up, piped, upack, infl, byst>>
+dvars == <<vars, msgs, inq, pend, got, ackd, resends, up, piped, upack, rl, infl, byst, step>>
+dview == <<subs, msgs, inq, pend, got, ackd, resends, up, piped, upack, rl, infl, byst>>
 PidsUp == 1..2
 
 Routed(c, t)      == \E s \in subs : s.c = c /\ Matches(s.f, t)
@@ -68,6 +75,7 @@ DInit ==
     /\ inq = [c \in Clients |-> <<>>] /\ pend = [c \in Clients |-> <<>>] /\ got = [c \in Clients |-> <<>>]
     /\ ackd = [c \in Clients |-> {}] /\ resends = 0
     /\ up = <<>> /\ piped = {} /\ upack = <<>> /\ infl = [c \in Clients |-> [p \in PidsUp |-> 0]] /\ byst = {}
+    /\ rl = [c \in Clients |-> 0]
     /\ step = [a |-> "init"]
 
 (* ---- HttpPublish: contract.  D = the set of clients that get a copy queued. ---- *)
@@ -80,7 +88,7 @@ PublishTo(t, q, D) ==
     /\ msgs' = Append(msgs, [t |-> t, q |-> q])
     /\ Enqueue(D, Len(msgs) + 1, q)
     /\ step' = [a |-> "pub", t |-> t, q |-> q, m |-> Len(msgs) + 1, to |-> D]
-    /\ UNCHANGED <<vars, got, ackd, resends, up, piped, upack, infl, byst>>
+    /\ UNCHANGED <<vars, got, ackd, resends, up, piped, upack, rl, infl, byst>>
 
 (* the deliveries the contract allows for a publish *)
 Allowed(t, q, D) ==
@@ -110,13 +118,21 @@ ImplPublish ==
            /\ PublishTo(t, q, D)
 
 (* ---- the rest of the machinery (same in both layers) ---- *)
-(* writeLoop writes the head of the queue to the socket and the client reads it *)
+(* writeLoop writes the head of the queue to the socket and the client reads it: a message, or the     *)
+(* PUBACK of one of the client's own PUBLISH packets (its packet id is free again then)                   *)
 Receive(c) ==
     /\ inq[c] # <<>>
     /\ inq' = [inq EXCEPT ![c] = Tail(@)]
-    /\ got' = [got EXCEPT ![c] = Append(@, Head(inq[c]))]
-    /\ step' = [a |-> "recv", c |-> c, m |-> Head(inq[c])]
-    /\ UNCHANGED <<vars, msgs, pend, ackd, resends, up, piped, upack, infl, byst>>
+    /\ LET h == Head(inq[c]) IN
+       IF h > 0
+       THEN /\ got' = [got EXCEPT ![c] = Append(@, h)]
+            /\ step' = [a |-> "recv", c |-> c, m |-> h]
+            /\ UNCHANGED <<upack, infl>>
+       ELSE /\ upack' = Append(upack, [c |-> c, pid |-> up[-h].pid, k |-> -h])
+            /\ infl' = IF infl[c][up[-h].pid] = up[-h].u THEN [infl EXCEPT ![c][up[-h].pid] = 0] ELSE infl
+            /\ step' = [a |-> "recvack", c |-> c, k |-> -h]
+            /\ UNCHANGED got
+    /\ UNCHANGED <<vars, msgs, pend, ackd, resends, up, piped, rl, byst>>
 
 (* the client's PUBACK is processed by the broker (session.puback) *)
 Ack(c, m) ==
@@ -124,7 +140,7 @@ Ack(c, m) ==
     /\ pend' = [pend EXCEPT ![c] = SelectSeq(@, LAMBDA x : x # m)]
     /\ ackd' = [ackd EXCEPT ![c] = @ \cup {m}]
     /\ step' = [a |-> "ack", c |-> c, m |-> m]
-    /\ UNCHANGED <<vars, msgs, inq, got, resends, up, piped, upack, infl, byst>>
+    /\ UNCHANGED <<vars, msgs, inq, got, resends, up, piped, upack, rl, infl, byst>>
 
 (* resend tick of the session: an unacknowledged message is queued again.  The contract allows    *)
 (* any unacknowledged message, the code picks the oldest one (OldestOnly).                          *)
@@ -135,7 +151,7 @@ Resend(c, m) ==
     /\ inq' = [inq EXCEPT ![c] = Append(@, m)]
     /\ resends' = resends + 1
     /\ step' = [a |-> "resend", c |-> c, m |-> m]
-    /\ UNCHANGED <<vars, msgs, pend, got, ackd, up, piped, upack, infl, byst>>
+    /\ UNCHANGED <<vars, msgs, pend, got, ackd, up, piped, upack, rl, infl, byst>>
 ResendOldest(c) == pend[c] # <<>> /\ Resend(c, Head(pend[c]))
 
 (* a PUBLISH from client c (no publish limiter configured): one step of the connection's read loop  *)
@@ -146,6 +162,7 @@ ResendOldest(c) == pend[c] # <<>> /\ Resend(c, Head(pend[c]))
 Verdicts == {"pass", "drop"}
 ClientPublish(c, pid, q, t, re, v) ==
     /\ Len(up) < MaxUp
+    /\ rl[c] = 0                                   \* (a read loop that is blocked reads no further packet)
     /\ re => (q = 1 /\ infl[c][pid] # 0)
     /\ (~re /\ q = 1) => infl[c][pid] = 0
     /\ LET k == Len(up) + 1
@@ -153,18 +170,38 @@ ClientPublish(c, pid, q, t, re, v) ==
            acked == q = 1 /\ v = "pass"
        IN /\ up' = Append(up, [c |-> c, pid |-> pid, q |-> q, t |-> t, u |-> u, dup |-> re, v |-> v])
           /\ piped' = piped \cup {k}
-          /\ upack' = IF acked THEN Append(upack, [c |-> c, pid |-> pid]) ELSE upack
-          /\ infl' = IF q = 0 THEN infl ELSE [infl EXCEPT ![c][pid] = IF acked THEN 0 ELSE u]
           /\ step' = [a |-> "cpub", c |-> c, pid |-> pid, q |-> q, t |-> t, u |-> u, dup |-> re, v |-> v]
-    /\ UNCHANGED <<vars, msgs, inq, pend, got, ackd, resends, byst>>
+          /\ IF AckViaQueue
+             THEN \* processPublish: writePacket(puback) - queued if there is room, otherwise the read loop waits for room
+                  /\ upack' = upack
+                  /\ infl' = IF q = 0 THEN infl ELSE [infl EXCEPT ![c][pid] = u]
+                  /\ IF acked /\ Len(inq[c]) < QCap THEN inq' = [inq EXCEPT ![c] = Append(@, -k)] /\ rl' = rl
+                     ELSE IF acked THEN rl' = [rl EXCEPT ![c] = k] /\ inq' = inq
+                     ELSE UNCHANGED <<inq, rl>>
+             ELSE /\ upack' = IF acked THEN Append(upack, [c |-> c, pid |-> pid, k |-> k]) ELSE upack
+                  /\ infl' = IF q = 0 THEN infl ELSE [infl EXCEPT ![c][pid] = IF acked THEN 0 ELSE u]
+                  /\ UNCHANGED <<inq, rl>>
+    /\ UNCHANGED <<vars, msgs, pend, got, ackd, resends, byst>>
+
+(* the blocked read loop gets its PUBACK into the queue as soon as there is room *)
+Unblock(c) ==
+    /\ rl[c] # 0 /\ Len(inq[c]) < QCap
+    /\ inq' = [inq EXCEPT ![c] = Append(@, -rl[c])] /\ rl' = [rl EXCEPT ![c] = 0]
+    /\ step' = [a |-> "unblock", c |-> c]
+    /\ UNCHANGED <<vars, msgs, pend, got, ackd, resends, up, piped, upack, infl, byst>>
+(* (DropAckOnFull only) ... or gives up after a while: the PUBACK is dropped *)
+GiveUp(c) ==
+    /\ DropAckOnFull /\ rl[c] # 0 /\ rl' = [rl EXCEPT ![c] = 0]
+    /\ step' = [a |-> "giveup", c |-> c]
+    /\ UNCHANGED <<vars, msgs, inq, pend, got, ackd, resends, up, piped, upack, infl, byst>>
 
 (* a client that holds no subscription connects or disconnects: nothing the property talks about changes *)
 Bystander(x) ==
     /\ byst' = IF x \in byst THEN byst \ {x} ELSE byst \cup {x}
     /\ step' = [a |-> "bystander", x |-> x]
-    /\ UNCHANGED <<vars, msgs, inq, pend, got, ackd, resends, up, piped, upack, infl>>
+    /\ UNCHANGED <<vars, msgs, inq, pend, got, ackd, resends, up, piped, upack, rl, infl>>
 
-Rest == \/ \E c \in Clients : \/ Receive(c) \/ (\E m \in 1..Len(msgs) : Ack(c, m)) \/ ResendOldest(c)
+Rest == \/ \E c \in Clients : \/ Receive(c) \/ (\E m \in 1..Len(msgs) : Ack(c, m)) \/ ResendOldest(c) \/ Unblock(c) \/ GiveUp(c)
                               \/ \E pid \in PidsUp, q \in QoS, t \in PubTopics, re \in BOOLEAN, v \in Verdicts : ClientPublish(c, pid, q, t, re, v)
         \/ \E x \in Bystanders : Bystander(x)
 
@@ -176,8 +213,9 @@ Fair   == \A c \in Clients : WF_dvars(Receive(c)) /\ WF_dvars(ResendOldest(c))
 LSpecD == ISpecD /\ Fair
 
 (* ------------------------------ the property's clauses ------------------------------ *)
-DTypeOK == /\ \A c \in Clients : SeqSet(inq[c]) \cup SeqSet(pend[c]) \cup SeqSet(got[c]) \cup ackd[c] \subseteq 1..Len(msgs)
-           /\ \A c \in Clients : Len(inq[c]) <= QCap
+DTypeOK == /\ \A c \in Clients : SeqSet(pend[c]) \cup SeqSet(got[c]) \cup ackd[c] \subseteq 1..Len(msgs)
+           /\ \A c \in Clients : SeqSet(inq[c]) \subseteq 1..Len(msgs) \cup {-k : k \in 1..Len(up)}
+           /\ \A c \in Clients : Len(inq[c]) <= QCap /\ rl[c] \in 0..Len(up)
 
 (* Fanout: right after a publish every eligible client has the message queued (QoS0: unless its  *)
 (* queue was full) - for every visiting order and every QoS the lookup may report                  *)
@@ -196,10 +234,15 @@ NothingForgotten == \A c \in Clients : \A m \in 1..Len(msgs) :
 (* every PUBLISH of a client went to the pipeline and every QoS1 one the pipeline did not drop was   *)
 (* answered with its own packet id; no PUBACK without such a PUBLISH                                 *)
 MustAck(i) == up[i].q = 1 /\ up[i].v = "pass"
+AckOnItsWay(i) == -i \in SeqSet(inq[up[i].c]) \/ rl[up[i].c] = i      \* queued for the client, or the read loop is about to queue it
+Acks(i) == {j \in 1..Len(upack) : upack[j].k = i}
 PubAckSameId ==
-    /\ \A i \in 1..Len(up) : i \in piped /\ (MustAck(i) => \E j \in 1..Len(upack) : upack[j] = [c |-> up[i].c, pid |-> up[i].pid])
-    /\ \A j \in 1..Len(upack) : \E i \in 1..Len(up) : MustAck(i) /\ upack[j] = [c |-> up[i].c, pid |-> up[i].pid]
-    /\ Len(upack) = Cardinality({i \in 1..Len(up) : MustAck(i)})
+    /\ \A i \in 1..Len(up) : i \in piped
+    \* never lost, never twice: the PUBACK has been received, or is on its way
+    /\ \A i \in 1..Len(up) : MustAck(i) => Cardinality(Acks(i)) + (IF AckOnItsWay(i) THEN 1 ELSE 0) = 1
+    \* no PUBACK without such a PUBLISH, and it carries that PUBLISH's packet id
+    /\ \A j \in 1..Len(upack) : LET i == upack[j].k IN i \in 1..Len(up) /\ MustAck(i) /\ upack[j].c = up[i].c /\ upack[j].pid = up[i].pid
+    /\ \A c \in Clients : \A x \in SeqSet(inq[c]) : x < 0 => (MustAck(-x) /\ up[-x].c = c)
 (* the contract's form of the first conjunct (a broker may recognise a retransmission): the message of every   *)
 (* PUBLISH has been handed to the pipeline - if the pipeline lets this packet pass, by a call it let pass        *)
 Handed(i) == \E j \in piped : up[j].c = up[i].c /\ up[j].u = up[i].u /\ (up[i].v = "pass" => up[j].v = "pass")
@@ -224,6 +267,7 @@ Tables(F, K) ==
 MCTopics == {TAB, TA}
 PopsSmall == Tables({FAH, FAB}, 2)
 PopsNone  == {{}}
+PopsOne   == { {[c |-> "c1", f |-> FAB, q |-> 1]}, {[c |-> "c1", f |-> FAB, q |-> 0]} }     \* one subscriber, QoS 1 or 0
 OneTopic  == {TAB}
 PopsWide  == Tables({FAH, FAB, FPB, FAP}, 2)
 =============================================================================
